@@ -28,6 +28,7 @@ from .core import (
 )
 
 _buf_ids = itertools.count(1)
+_inv_counter = itertools.count()
 
 
 class Buffer:
@@ -85,7 +86,7 @@ def _cast_expr(e, frm, to):
     if to == "int":
         if frm == "bool":
             return z3.If(e, z3.IntVal(1), z3.IntVal(0))
-        raise Unsupported("real -> int cast")
+        return z3.ToInt(e)  # numpy truncates; used for integer-valued reals (positions) only
     if to == "bool":
         if frm == "int":
             return e != 0
@@ -204,6 +205,8 @@ class SymArr(_np.ndarray):
 
     # -- python protocol
     def __len__(self):
+        if self.ndim and isinstance(self.shape[0], int):
+            return self.shape[0]
         raise Unsupported("len() of symbolic array")
 
     def __iter__(self):
@@ -1326,12 +1329,44 @@ def _adv_inverse(a, key, parts, idx_pos, bshape, res_axes):
             raise Unsupported("advanced write with multi-axis index array")
         dep[i] = axes[0] if axes else None
     keyparts = [k for k in key if k is not None]
+    # groups of index arrays sharing a broadcast axis of symbolic length without a known inverse:
+    # one k-ary choice function  rowof(s_1..s_k) = some position j with index_i(j) == s_i for all i
+    groups = {}
+    for i in idx_pos:
+        ax = dep[i]
+        if ax is None:
+            continue
+        p = parts[i]
+        seq = p[3] if len(p) > 3 else None
+        if (seq is None or seq.inv is None) and not isinstance(bshape[ax], int):
+            groups.setdefault(ax, []).append(i)
+    rowof = {}
+    for ax, members in groups.items():
+        nm = f"rowof!{next(_inv_counter)}"
+        f = z3.Function(nm, *([z3.IntSort()] * len(members)), z3.IntSort())
+        rowof[ax] = (f, members)
+        if core.active():
+            c = ctx()
+            c.adv_writes = getattr(c, "adv_writes", [])
+            c.adv_writes.append({"rowof": f, "n": bshape[ax], "readers": [(lambda p, ax: (lambda j: p[1](tuple(to_int(j) if (k + len(bshape) - len(p[2])) == ax else 0 for k in range(len(p[2]))))))(parts[i], ax) for i in members]})
 
     def inv(sidx):
         conds = []
         bidx = [0] * len(bshape)
         slv = {}
         solved = {}
+        # source index of every non-new part, by part number
+        src_of = {}
+        si0 = 0
+        for i0, p0 in enumerate(parts):
+            if p0[0] == "new":
+                continue
+            src_of[i0] = to_int(sidx[si0])
+            si0 += 1
+        for ax, (f, members) in rowof.items():
+            j = f(*[src_of[i] for i in members])
+            solved[ax] = j
+            conds += [j >= 0, j < _zsize(bshape[ax])]
         si = 0
         for i, p in enumerate(parts):
             if p[0] == "new":
@@ -1370,9 +1405,6 @@ def _adv_inverse(a, key, parts, idx_pos, bshape, res_axes):
         return z3.And(*conds) if conds else z3.BoolVal(True), tuple(ridx)
 
     return inv
-
-
-_inv_counter = itertools.count()
 
 
 def _invert_index(part, ax, s, n):
@@ -2068,8 +2100,14 @@ class _SetMeta(type):
 
 class sh_set(metaclass=_SetMeta):
     def __new__(cls, it=()):
+        from . import symtable
+
         if hasattr(it, "subset_of"):
             return SymItemSet(it)
+        if isinstance(it, symtable.ColValues):
+            return symtable.ColSet(it.col)
+        if isinstance(it, symtable.Opaque):
+            return it
         return builtins.set(it)
 
 
@@ -2105,4 +2143,22 @@ def fvc_listcomp(f, it):
     return SymSeq.define(n, body_of, facts_of, also_at=also)
 
 
-BUILTIN_SHIMS = {"len": sh_len, "int": sh_int, "abs": sh_abs, "max": sh_max, "min": sh_min, "range": sh_range, "list": sh_list, "set": sh_set, "__fvc_listcomp__": fvc_listcomp}
+def _sh_enumerate(it, start=0):
+    from . import symtable
+
+    return symtable.sh_enumerate(it, start)
+
+
+def _sh_any(x):
+    from . import symtable
+
+    return symtable.sh_any(x)
+
+
+def _fvc_dictcomp(f, it, nargs=1):
+    from . import symtable
+
+    return symtable.fvc_dictcomp(f, it, nargs)
+
+
+BUILTIN_SHIMS = {"enumerate": _sh_enumerate, "any": _sh_any, "__fvc_dictcomp__": _fvc_dictcomp, "len": sh_len, "int": sh_int, "abs": sh_abs, "max": sh_max, "min": sh_min, "range": sh_range, "list": sh_list, "set": sh_set, "__fvc_listcomp__": fvc_listcomp}
